@@ -41,6 +41,11 @@ func c12Bases(seed int64, thorough bool) []*e2eCase {
 	mk(false, true, 4, true, false, false, []int64{3000, 10}, nil) // archive stream towards the client
 	// overwrite with an existing destination file: the prefix-hash exchange
 	mk(true, false, 4, false, true, true, []int64{6000}, []e2eNode{{Rel: e2eName(0, 0), Size: 3000, Kind: 0}})
+	// incompressible data that fills the first buffers: the sender adapts its buffer size to the peer's configuration
+	mk(true, true, 4, false, false, true, []int64{40000}, nil)
+	res[len(res)-1].Opts.Bufsize = 10 << 20
+	res[len(res)-1].Opts.Compress = 2
+	res[len(res)-1].Nodes[0].Kind = 1
 	if thorough {
 		mk(true, false, 2, false, false, true, []int64{9000}, nil)
 		mk(false, true, 3, false, true, true, []int64{6000}, []e2eNode{{Rel: e2eName(0, 0), Size: 7000, Kind: 0}})
@@ -197,8 +202,8 @@ func c12Adversary(d *vCtx) error {
 					continue // every third DATA message is enough in the quick tier
 				}
 				for ui, mu := range c12Mutations(m, m.Raw, bases[bi].Opts.Binary) {
-					if m.G <= 1 && !thorough && ui%4 != bi%4 {
-						continue // handshake mutations cost the client's 20 s default time-out each: sample them
+					if m.G == 0 && !thorough && ui%4 != bi%4 {
+						continue // a broken ACT costs the client's 20 s default time-out each time: sample those
 					}
 					jobs = append(jobs, job{bi, mu})
 				}
